@@ -10,6 +10,7 @@ import (
 	"sort"
 	"strings"
 	"sync"
+	"time"
 
 	"github.com/postalsys/muti-metroo/internal/identity"
 	"github.com/postalsys/muti-metroo/internal/peer"
@@ -41,6 +42,30 @@ func (f *fakeConn) TransportType() transport.TransportType {
 	return f.tt
 }
 
+// pipeConn: a peer connection over an in-memory pipe whose single stream is the
+// pipe itself, enough for a real PEER_HELLO handshake.
+type pipeStream struct{ net.Conn }
+
+func (s pipeStream) StreamID() uint64  { return 0 }
+func (s pipeStream) CloseWrite() error { return nil }
+
+type pipeConn struct {
+	c      net.Conn
+	dialer bool
+}
+
+func (d *pipeConn) OpenStream(ctx context.Context) (transport.Stream, error) {
+	return pipeStream{d.c}, nil
+}
+func (d *pipeConn) AcceptStream(ctx context.Context) (transport.Stream, error) {
+	return pipeStream{d.c}, nil
+}
+func (d *pipeConn) Close() error                           { return d.c.Close() }
+func (d *pipeConn) LocalAddr() net.Addr                    { return &net.TCPAddr{} }
+func (d *pipeConn) RemoteAddr() net.Addr                   { return &net.TCPAddr{} }
+func (d *pipeConn) IsDialer() bool                         { return d.dialer }
+func (d *pipeConn) TransportType() transport.TransportType { return transport.TransportQUIC }
+
 type replay struct {
 	Kind       string   `json:"kind"` // "allocator" | "connection-pair"
 	Start      uint64   `json:"start"`
@@ -49,6 +74,9 @@ type replay struct {
 	Goroutines int      `json:"goroutines"`
 	PerG       int      `json:"per_goroutine"`
 	Observed   []uint64 `json:"observed,omitempty"`
+	Trials     int      `json:"trials,omitempty"`
+	Order      string   `json:"order,omitempty"` // reconnect: who dials at each step ('a' or 'b')
+	Step       int      `json:"step,omitempty"`
 }
 
 // storm runs g goroutines each calling next() m times and returns all ids.
@@ -203,6 +231,104 @@ func main() {
 		c.Count("across-close")
 	}
 
+	// First allocation on fresh connection ends with every goroutine released at
+	// once, monitors only (no model case): many cheap trials for a lazily or
+	// non-atomically seeded counter.
+	runFirstAllocRace := func(trials int) {
+		id, _ := identity.NewAgentID()
+		for i := 0; i < trials; i++ {
+			dialer := i%2 == 0
+			cn := peer.NewConnection(&fakeConn{dialer: dialer}, peer.DefaultConnectionConfig(id))
+			ids := storm(8, 1, cn.NextStreamID)
+			st := uint64(2)
+			if dialer {
+				st = 1
+			}
+			r := replay{Kind: "first-alloc-race", Start: st, Dialer: dialer, Goroutines: 8, PerG: 1, Trials: i + 1}
+			before := len(c.Res.Failures)
+			monitor(r, ids, dialer)
+			cn.Close()
+			if len(c.Res.Failures) != before {
+				break
+			}
+		}
+		c.Res.Histogram["first-alloc-race-trials"] += trials
+	}
+	// Real handshakes over an in-memory pipe with long-lived Handshakers, the
+	// link re-established in the same and in the reverse direction: whatever a
+	// handshake does to the connection object, each connection's two ends must
+	// allocate from their own role's start (compared with the model) and keep
+	// the role's parity.
+	handshake := func(dial, accept *peer.Handshaker, dialID, acceptID identity.AgentID) (*peer.Connection, *peer.Connection, error) {
+		p1, p2 := net.Pipe()
+		ctx, cancel := context.WithTimeout(context.Background(), 5*time.Second)
+		defer cancel()
+		type res struct {
+			c   *peer.Connection
+			err error
+		}
+		ch := make(chan res, 1)
+		go func() {
+			cn, err := accept.AcceptHandshake(ctx, &pipeConn{c: p2, dialer: false}, peer.DefaultConnectionConfig(acceptID))
+			ch <- res{cn, err}
+		}()
+		dconn := peer.NewConnection(&pipeConn{c: p1, dialer: true}, peer.DefaultConnectionConfig(dialID))
+		if _, err := dial.PerformHandshake(ctx, dconn, identity.AgentID{}); err != nil {
+			p1.Close()
+			p2.Close()
+			<-ch
+			return nil, nil, err
+		}
+		r := <-ch
+		if r.err != nil {
+			return nil, nil, r.err
+		}
+		return dconn, r.c, nil
+	}
+	runReconnect := func(order string, m int) {
+		idA, _ := identity.NewAgentID()
+		idB, _ := identity.NewAgentID()
+		hA := peer.NewHandshaker(idA, "A", nil, 5*time.Second)
+		hB := peer.NewHandshaker(idB, "B", nil, 5*time.Second)
+		for step, ch := range order {
+			dial, acc, dID, aID := hA, hB, idA, idB
+			if ch == 'b' {
+				dial, acc, dID, aID = hB, hA, idB, idA
+			}
+			dc, ac, err := handshake(dial, acc, dID, aID)
+			if err != nil {
+				c.Fail("handshake-failed", fmt.Sprintf("order %s step %d: %v", order, step, err), replay{Kind: "reconnect", Order: order, PerG: m})
+				return
+			}
+			var dIDs, aIDs []uint64
+			var wg sync.WaitGroup
+			wg.Add(2)
+			go func() { defer wg.Done(); dIDs = storm(2, m, dc.NextStreamID) }()
+			go func() { defer wg.Done(); aIDs = storm(2, m, ac.NextStreamID) }()
+			wg.Wait()
+			rd := replay{Kind: "reconnect", Order: order, Step: step, Start: 1, Dialer: true, Goroutines: 2, PerG: m}
+			ra := replay{Kind: "reconnect", Order: order, Step: step, Start: 2, Dialer: false, Goroutines: 2, PerG: m}
+			c.Case(fmt.Sprintf("reconnect-d/%s/%d/%d", order, step, m), true, rd)
+			addCase(rd, dIDs)
+			c.Case(fmt.Sprintf("reconnect-a/%s/%d/%d", order, step, m), true, ra)
+			addCase(ra, aIDs)
+			monitor(rd, dIDs, true)
+			monitor(ra, aIDs, false)
+			set := map[uint64]bool{}
+			for _, v := range dIDs {
+				set[v] = true
+			}
+			for _, v := range aIDs {
+				if set[v] {
+					c.Fail("cross-end-collision", fmt.Sprintf("identifier %d allocated by both ends (order %s step %d)", v, order, step), rd)
+				}
+			}
+			dc.Close()
+			ac.Close()
+		}
+		c.Count("reconnect:" + order)
+	}
+
 	if c.Replay != "" {
 		var r replay
 		if err := c.ReadReplay(&r); err != nil {
@@ -212,6 +338,10 @@ func main() {
 			runPair(r.Goroutines, r.PerG)
 		} else if r.Kind == "across-close" {
 			runAcrossClose(r.Dialer, r.Goroutines, r.PerG)
+		} else if r.Kind == "first-alloc-race" {
+			runFirstAllocRace(4 * r.Trials)
+		} else if r.Kind == "reconnect" {
+			runReconnect(r.Order, r.PerG)
 		} else {
 			runAllocator(r)
 		}
@@ -227,6 +357,10 @@ func main() {
 		}
 		for i := 0; i < c.N(20, 200); i++ {
 			runAcrossClose(i%2 == 0, 1+i%4, 1+i%3)
+		}
+		runFirstAllocRace(c.N(20000, 200000))
+		for i, order := range []string{"ab", "ba", "aa", "aba", "abba", "bab", "aab"} {
+			runReconnect(order, 1+i%3)
 		}
 		n := c.N(60, 600)
 		for i := 0; i < n; i++ {
